@@ -401,3 +401,17 @@ def c05_probes():
     for name, defs, value in shapes:
         out.append((name, HEAD + C05_RUN + '\n' + defs + '\n\nfn main() { let x = %s; check(&x, "%s"); }\n' % (value, name)))
     return out
+
+
+# --------------------------------------------------------------------- C08
+def c08_probes():
+    """Compile-only probes of the conditions of `unsafe impl Send/Sync for MemCase`:
+    [(name, source, expectation)], expectation ∈ compile | reject."""
+    base = HEAD + 'use std::rc::Rc;\nuse std::cell::Cell;\nfn need_send<T: Send>() {}\nfn need_sync<T: Sync>() {}\n'
+    return [
+        ('memcase_of_rc_is_not_send', base + 'fn main() { need_send::<MemCase<Rc<u8>>>(); }\n', 'reject'),
+        ('memcase_of_rc_is_not_sync', base + 'fn main() { need_sync::<MemCase<Rc<u8>>>(); }\n', 'reject'),
+        ('memcase_of_cell_is_not_sync', base + 'fn main() { need_sync::<MemCase<Cell<u8>>>(); }\n', 'reject'),
+        ('memcase_of_slice_is_send_sync', base + "fn main() { need_send::<MemCase<&'static [u64]>>(); need_sync::<MemCase<&'static [u64]>>(); need_send::<MemCase<Vec<String>>>(); }\n", 'compile'),
+        ('memcase_of_cell_is_send', base + 'fn main() { need_send::<MemCase<Cell<u8>>>(); }\n', 'compile'),
+    ]
